@@ -410,8 +410,17 @@ def r09d_impl(model: Model, rr: RuleResult):
                f"mtime, so the half-written leftover of a killed step is taken for a finished one) - after an interruption the next run no longer converges to the clean build",
                construct=f"maybe_run_ninja: ninja tool invocation {short(r, 50)}")
     builds = [r for r in runs if r not in tools]
-    if len(builds) != 1:
-        raise AnalysisError("maybe_run_ninja: expected one ninja build invocation")
+    if not builds:
+        raise AnalysisError("maybe_run_ninja: no ninja build invocation")
+    for extra in builds[1:] if len(builds) > 1 else []:
+        pass
+    unchecked = [r for r in builds if not (norm(r.func) == "subprocess.check_call" or (norm(r.func) == "subprocess.run" and kwarg(r, "check") is not None and norm(kwarg(r, "check")) == "True"))]
+    if len(builds) > 1:
+        for r in unchecked:
+            rr.bad(fi, r, f"one of the ways ninja is run ({short(r, 70)}) does not check its exit status: on that path a failed step leaves the driver exiting 0",
+                   construct=f"maybe_run_ninja: unchecked {short(r, 50)}")
+        if unchecked:
+            return
     c = builds[0]
     ok = norm(c.func) == "subprocess.check_call" or (norm(c.func) == "subprocess.run" and kwarg(c, "check") is not None and norm(kwarg(c, "check")) == "True")
     if ok:
@@ -592,3 +601,22 @@ def r09f(model: Model, rr: RuleResult):
         rr.ok(f"reviewed exception {k[0]}.{k[1]}: {why}")
     if n < 200:
         raise AnalysisError(f"R09f: only {n} functions scanned")
+
+
+BACKDATING = {"shutil.copy2", "shutil.copystat", "os.utime", "shutil.copytree"}
+
+
+@RULES.rule("C09", "R09g", "no step back-dates what it writes (outputs get a fresh mtime: ninja compares it with the inputs')", floor=20)
+def r09g(model: Model, rr: RuleResult):
+    n = 0
+    for mname, mod in sorted(model.modules.items()):
+        hits = [c for c in ast.walk(mod.tree) if isinstance(c, ast.Call) and (norm(c.func) in BACKDATING or (callee_tail(c) in ("copy2", "copystat", "utime")))]
+        for c in hits:
+            owner = next((fi for fi in mod.functions.values() if any(x is c for x in ast.walk(fi.node))), None)
+            rr.bad(owner or mod, c, f"{short(c, 60)} gives the output the *source's* modification time: after such a step the output can look older than a file that was "
+                   f"built from it earlier, ninja then keeps that stale descendant, and a later invocation does not converge to the clean build", construct=f"{mname}: {short(c.func)} preserves mtime")
+        n += 1
+        if not hits:
+            rr.ok(f"{mname}: no copy2 / copystat / utime")
+    if n < 20:
+        raise AnalysisError(f"R09g: only {n} modules scanned")
